@@ -226,3 +226,16 @@ reg("C04", [M("C04", "frame", "packet_rt", _PKT_BOUNDS, _PKT_FUNCS)], _PKT_ASSUM
 reg("C09", [M("C09", "wire", "packet_rt", _PKT_BOUNDS, _PKT_FUNCS)], _PKT_ASSUME + [
     "C09.wire: the walker finds the OPT pseudo-record (root owner = 1 name byte, TYPE 41, RDLENGTH) counted once in ARCOUNT; "
     "field placement inside the OPT record is decided by C02.rdata/C10 (OPT type) and the TTL layout by the Kani harnesses"])
+
+reg("C01", [
+    M("C01", "packet", "packet_bytes",
+      "Packet::parse on fully symbolic messages of every length 0,4,8,12..19 (quick) / ..23 (thorough): all header counts and all "
+      "bytes symbolic; flags word fixed for L>12; Name::parse = contract stub for L>12; loop bound 40; also decides "
+      "C01.alloc: sum of Vec::with_capacity element requests <= message length",
+      ["Packet::parse", "Packet::parse_section", "Question::parse", "ResourceRecord::parse", "RData::parse", "parse_rdata",
+       "typed RDATA parsers", "Header::parse", "header_buffer::*", "Header::extract_info_from_opt_rr"],
+      params={'K_quick': 7, 'K_thorough': 11}),
+], [
+    "C01.alloc counts element requests of Vec::with_capacity (the only explicit pre-allocations in the parse path); "
+    "incremental Vec growth is bounded by the number of pushes, i.e. by the iteration variants",
+])
